@@ -9,7 +9,10 @@ const TRANSPORT: &str = "Transport";
 impl RelayPacket {
     /// Determine if this packet is in a handshake state.
     pub fn is_handshake(&self) -> bool {
-        self.payload.as_ref().unwrap().is_handshake()
+        self.payload
+            .as_ref()
+            .map(|payload| payload.is_handshake())
+            .unwrap_or(false)
     }
 
     /// Encode a packet prefixed with the target public key.
@@ -82,7 +85,8 @@ impl RelayPayload {
 
     /// Determine if this payload is in a handshake state.
     pub fn is_handshake(&self) -> bool {
-        let kind: RelayType = self.kind.try_into().unwrap();
-        kind.as_str_name() == HANDSHAKE
+        RelayType::try_from(self.kind)
+            .map(|kind| kind.as_str_name() == HANDSHAKE)
+            .unwrap_or(false)
     }
 }
